@@ -92,7 +92,15 @@ Section ClockProofs.
   Proof.
     intros H. unfold Clock.in_season. destruct (0 <=? season s); [|reflexivity].
     destruct (nthZ (plant c) (season s)); [|reflexivity]. destruct (nthZ (harv c) (season s)); [|reflexivity].
-    rewrite H. cbn. rewrite andb_false_r. reflexivity.
+    rewrite H. cbn. rewrite !andb_false_r. reflexivity.
+  Qed.
+
+  (* the harvest ends the season: once the summary row of a season is written, no later day of it is in season *)
+  Lemma hflag_not_in_season c s : hflag s = true -> in_season c s = false.
+  Proof.
+    intros H. unfold Clock.in_season. destruct (0 <=? season s); [|reflexivity].
+    destruct (nthZ (plant c) (season s)); [|reflexivity]. destruct (nthZ (harv c) (season s)); [|reflexivity].
+    rewrite H. cbn. rewrite !andb_false_r. reflexivity.
   Qed.
 
   Lemma day_step_mature c w s s' r sr : day_step c w s = (s', r, sr) ->
